@@ -49,6 +49,7 @@ static double pdf1(int id, double x)
 		case 20: return std::exp(-0.5 * x * x);
 		case 21: return std::exp(-std::fabs(x));
 		case 22: return 4.0 * std::exp(-0.5 * x * x);
+		case 23: return std::exp(-0.5 * (x - 50.0) * (x - 50.0) / 0.25);   // narrow peak: underflows to exactly 0 beyond |x-50| > 19.4
 	}
 	return 0.0;
 }
@@ -63,6 +64,7 @@ static double pdf2(int id, double x, double y)
 		case 4: return 1.0 / ((1.0 + x * x) * (1.0 + y * y * y * y));
 		case 20: return std::exp(-0.5 * (x * x + 0.25 * y * y));
 		case 22: return 3.0 * std::exp(-0.5 * (x * x + y * y));
+		case 23: return std::exp(-0.5 * ((x - 50.0) * (x - 50.0) + (y - 50.0) * (y - 50.0)) / 0.25);   // exact-zero plateau around a narrow peak
 	}
 	return 0.0;
 }
